@@ -13,13 +13,28 @@
 //	        the core does not abort a call at its timeout and collects its result at the await point whenever
 //	        the call finishes (docs/handbook/configuration.md, callable/call.go).
 //	req  := (T ev bodyOk rnFail) | (C ev bodyOk rnFail) | (D force relOk1 relOk2)
+//	      | (TR ev bodyOk rnFail) | (CR ev bodyOk rnFail)
+//	        like T / C, but the task-level body is the REAL one of core/environment/transition_*.go
+//	        (environment.NewConfigureTransition / NewStartActivityTransition / NewStopActivityTransition /
+//	        NewResetTransition) for ev in CONFIGURE START_ACTIVITY STOP_ACTIVITY RESET: it sends its
+//	        TransitionTasks / ConfigureTasks command to the task manager's MessageChannel and waits on the
+//	        environment's stateChangedCh; the harness's fake task manager answers it with a
+//	        TasksStateChangedEvent through the environment manager's event loop (bodyOk ⇒ no error, !bodyOk ⇒
+//	        "tasks failed to change state"), and records (B ev) when the command arrives. Everything the real
+//	        body does besides (StartActivityTransition.do resets currentRunNumber when the tasks fail to
+//	        start, …) is the code's own doing, not a replica. For the other events (DEPLOY needs a real
+//	        deployment; EXIT/RECOVER/GO_ERROR have no task-level command) TR/CR fall back to the scripted
+//	        body. The model is the same for T and TR, C and CR. A real CONFIGURE asks nobody when the
+//	        workflow has no active task, so TR/CR CONFIGURE need nTasks ≥ 1 (otherwise the case is
+//	        reported as an infrastructure error, i.e. inconclusive).
 //
 // Trace (S-expression list), in global sequence order:
 //
 //	(M step s|f)                   Ev_EnvironmentEvent "transition step starting/finished"
 //	(XS id k) (XE id k fails snap st)   probe call: entry / exit (snap = variables of the call's VarStack)
 //	(H (id k fails)…)              hookHandlerF invoked with these task hooks
-//	(B ev)                         the scripted task-level body ran
+//	(B ev)                         the scripted task-level body ran / the fake task manager received the
+//	                               command of the real body of ev (named after the command: START→START_ACTIVITY …)
 //	(RE transition status rn ts)   Ev_RunEvent published (ts = timestamp it was published with)
 //	(R result state rn vars pending gone)   the request returned
 //	(Q n)                          end of the case, after every probe call has returned: n goroutines of
@@ -113,8 +128,40 @@ type caseState struct {
 	relOk   []bool // scripted results of the next ReleaseTasks rounds
 	relMu   sync.Mutex
 	pace    bool
+	body    atomic.Pointer[bodyScript] // TR/CR: scripted answer of the fake task manager to the next command of a real body
 	gate    atomic.Pointer[gateT] // overlapping requests: where the first one is parked inside its critical section
 	hold    atomic.Pointer[holdT] // overlapping requests: the second one is parked at its first published event
+}
+
+// bodyScript: how the fake task manager answers the command round trip of a real transition body.
+type bodyScript struct {
+	ev string
+	ok bool
+}
+
+// realBodyEvents: the environment events whose real task-level body is one command round trip with the
+// task manager, and the constructor of the real transition.
+var realBodyEvents = map[string]func(*task.Manager) environment.Transition{
+	"CONFIGURE":      environment.NewConfigureTransition,
+	"START_ACTIVITY": environment.NewStartActivityTransition,
+	"STOP_ACTIVITY":  environment.NewStopActivityTransition,
+	"RESET":          environment.NewResetTransition,
+}
+
+// commandEvent names the environment event a task-manager command belongs to (what the real body asked for).
+func commandEvent(m *task.TaskmanMessage) string {
+	if m.GetMessageType() == taskop.ConfigureTasks {
+		return "CONFIGURE"
+	}
+	switch m.GetEvent() {
+	case sm.START.String():
+		return "START_ACTIVITY"
+	case sm.STOP.String():
+		return "STOP_ACTIVITY"
+	case sm.RESET.String():
+		return "RESET"
+	}
+	return "TASKS_" + m.GetEvent()
 }
 
 // gateT parks the goroutine that first reaches a gate point (scripted body, ReleaseTasks handling) while armed.
@@ -299,6 +346,21 @@ func Setup(work string) error {
 		// the fake task manager: answers ReleaseTasks like the real one would, per script
 		go func() {
 			for m := range taskman.MessageChannel {
+				if mt := m.GetMessageType(); mt == taskop.TransitionTasks || mt == taskop.ConfigureTasks {
+					// the command of a REAL transition body (TR/CR requests): answered like the real task
+					// manager does, with a TasksStateChangedEvent that the environment manager's event loop
+					// hands to the environment's stateChangedCh, where the body waits
+					var terr error
+					if cs := cur.Load(); cs != nil {
+						rec.add(sx.L(sx.A("B"), sx.A(commandEvent(m))))
+						cs.hitGate()
+						if b := cs.body.Swap(nil); b != nil && !b.ok {
+							terr = fmt.Errorf("scripted body failed: tasks did not reach %s", m.GetDestination())
+						}
+					}
+					evCh <- event.NewTasksStateChangedEvent(m.GetEnvironmentId(), m.GetTasks().GetTaskIds(), terr)
+					continue
+				}
 				if m.GetMessageType() != taskop.ReleaseTasks {
 					continue
 				}
@@ -463,6 +525,21 @@ func pendingOf(env *environment.Environment) *sx.Node {
 	return l
 }
 
+// hasRealBody: does the request list hold a TR/CR request (also inside an overlapping pair)?
+func hasRealBody(reqs *sx.Node) bool {
+	for _, q := range reqs.List {
+		switch q.At(0).Str() {
+		case "TR", "CR":
+			return true
+		case "P":
+			if hasRealBody(sx.L(q.At(1), q.At(2))) {
+				return true
+			}
+		}
+	}
+	return false
+}
+
 // Run executes one case and returns its trace.
 func Run(input string, paced bool) (string, error) {
 	in, err := sx.Parse(input)
@@ -518,6 +595,16 @@ func Run(input string, paced bool) (string, error) {
 	}
 	env.SetWorkflowForVerif(root)
 	cs.env = env
+	if hasRealBody(in.At(1)) {
+		// the real bodies address the ACTIVE tasks of the workflow: mark the plain task roles (not the hook
+		// tasks) active, as the task manager does once a launched task is up. Only for inputs that ask for
+		// real bodies: every other input runs exactly as before.
+		for _, r := range root.GetRoles() {
+			if p, ok := r.(parentRoleFull); ok && strings.HasPrefix(r.GetName(), "t") {
+				p.UpdateStatus(task.ACTIVE)
+			}
+		}
+	}
 	env.SetHookHandlerForVerif(func(hs task.Tasks) error {
 		l := sx.L(sx.A("H"))
 		type ev struct {
@@ -554,15 +641,40 @@ func Run(input string, paced bool) (string, error) {
 	rec.reset()
 
 	gone := false
+	tornDown := false  // a teardown has been attempted in this case
+	var infraErr error // set by exec when a request cannot be run as asked (never a verdict: the case is inconclusive)
 	// exec runs one request as a caller of the core would; scriptRel: a teardown scripts its two release rounds
 	exec := func(q *sx.Node, scriptRel bool) error {
 		var rerr error
 		switch q.At(0).Str() {
-		case "T", "C":
+		case "T", "C", "TR", "CR":
+			kind := q.At(0).Str()
 			evName := q.At(1).Str()
 			bodyOk := q.At(2).Bool()
 			rnFail := q.At(3).Bool()
+			realCtor := realBodyEvents[evName]
+			if len(kind) == 1 {
+				realCtor = nil
+			}
+			if realCtor != nil && tornDown {
+				// TeardownEnvironment closes the environment's stateChangedCh before its first release round; if
+				// the release then fails the environment lives on, and a real body no longer waits for the task
+				// manager's answer (it reads nil from the closed channel and reports success whatever the tasks
+				// did). Seen on the real code, not modelled: such a request is not run.
+				infraErr = fmt.Errorf("infrastructure: real transition body after a teardown attempt is not supported (stateChangedCh is closed)")
+				return infraErr
+			}
+			if realCtor != nil && evName == "CONFIGURE" && len(workflow.GetActiveTasks(env.Workflow())) == 0 {
+				infraErr = fmt.Errorf("infrastructure: the real CONFIGURE body sends no command without active tasks (TR/CR CONFIGURE need nTasks >= 1)")
+				return infraErr
+			}
+			defer cs.body.Store(nil)
 			mk := func() environment.Transition {
+				if realCtor != nil {
+					// the REAL body; only the task manager's answer is scripted
+					cs.body.Store(&bodyScript{ev: evName, ok: bodyOk})
+					return realCtor(taskman)
+				}
 				return environment.NewScriptedTransition(evName, taskman, func(e *environment.Environment) error {
 					rec.add(sx.L(sx.A("B"), sx.A(evName)))
 					cs.hitGate()
@@ -581,7 +693,7 @@ func Run(input string, paced bool) (string, error) {
 				saved, _ = os.ReadFile(rcf)
 				os.WriteFile(rcf, []byte("garbage"), 0o644)
 			}
-			if q.At(0).Str() == "T" {
+			if kind[0] == 'T' {
 				rerr = env.TryTransition(mk())
 			} else if _, lerr := envman.Environment(id); lerr != nil {
 				// RpcServer.ControlEnvironment looks the environment up first
@@ -606,6 +718,7 @@ func Run(input string, paced bool) (string, error) {
 				}
 			}
 		case "D":
+			tornDown = true
 			if scriptRel {
 				cs.relMu.Lock()
 				cs.relOk = []bool{q.At(2).Bool(), q.At(3).Bool()}
@@ -725,6 +838,9 @@ func Run(input string, paced bool) (string, error) {
 	// awaited or cancelled) — not runnable, not inside the call
 	if err := waitCallsQuiescent(); err != nil {
 		return "", err
+	}
+	if infraErr != nil {
+		return "", infraErr
 	}
 	_, parked := callGoroutines()
 	rec.add(sx.L(sx.A("Q"), sx.I(max(parked-parked0, 0))))
